@@ -97,6 +97,18 @@ func (p *Program) verifyFunction(fn *ssa.Function, fc *FuncContract) (res *FuncR
 	goTypeResolver = func(name string) types.Type { return p.resolveGoType(env.pkg, name) }
 	if fc != nil {
 		for _, g := range fc.Ghosts {
+			for _, prm := range fn.Params {
+				if prm.Name() == g.Name {
+					x.errorf("%s:%d: ghost %s shadows a parameter of %s", fc.File, fc.Line, g.Name, fc.Key)
+				}
+			}
+			if rs := fn.Signature.Results(); rs != nil {
+				for i := 0; i < rs.Len(); i++ {
+					if rs.At(i).Name() == g.Name {
+						x.errorf("%s:%d: ghost %s shadows a named result of %s", fc.File, fc.Line, g.Name, fc.Key)
+					}
+				}
+			}
 			srt, typ := ghostSort(g.Type)
 			var v Val
 			if g.Init == "zero" && srt.IsArray() {
@@ -222,6 +234,27 @@ func (p *Program) resolveGoType(pkg *types.Package, s string) types.Type {
 		}
 		return nil
 	}
+	if s == "interface{}" || s == "interface {}" || s == "any" {
+		return types.NewInterfaceType(nil, nil)
+	}
+	if strings.HasPrefix(s, "map[") {
+		depth := 0
+		for i := 3; i < len(s); i++ {
+			if s[i] == '[' {
+				depth++
+			} else if s[i] == ']' {
+				depth--
+				if depth == 0 {
+					k, v := p.resolveGoType(pkg, s[4:i]), p.resolveGoType(pkg, s[i+1:])
+					if k == nil || v == nil {
+						return nil
+					}
+					return types.NewMap(k, v)
+				}
+			}
+		}
+		return nil
+	}
 	if obj := types.Universe.Lookup(s); obj != nil {
 		return obj.Type()
 	}
@@ -229,6 +262,12 @@ func (p *Program) resolveGoType(pkg *types.Package, s string) types.Type {
 		return nil
 	}
 	if i := strings.Index(s, "."); i > 0 {
+		if s[:i] == pkgQual(pkg) || s[:i] == pkg.Name() {
+			if obj := pkg.Scope().Lookup(s[i+1:]); obj != nil {
+				return obj.Type()
+			}
+			return nil
+		}
 		for _, imp := range pkg.Imports() {
 			if imp.Name() == s[:i] {
 				if obj := imp.Scope().Lookup(s[i+1:]); obj != nil {
